@@ -37,7 +37,7 @@ func (c *c19) NumCases(tier string) int {
 	return 1920
 }
 func (c *c19) Rule() string {
-	return "one case = one streaming call (Datastore.Subscribe with 1-4 subscriptions and 1-4 ms sample intervals, Server.GetData in all four encodings, Server.WatchDeviations) on a datastore holding 0-120 running leaves, with a scripted client: cancel at send index k, Send error from index k on (all concurrent senders fail), stalled consumer (Send blocks until cancel), slow consumer, cancel between ticks, data exhausted, or the cache instance of the datastore deleted while the stream is served; the handler must return and the census of goroutines with a data-server frame (runtime.Stack) must be back at its baseline within 10 s; a worker death with a Go panic is a violation. distinct = (rpc, subscriptions/encoding, store size, script); non-trivial = the terminating event happened after at least one message was sent or while several senders were active"
+	return "one case = one streaming call (Datastore.Subscribe with 1-4 subscriptions and 1-4 ms sample intervals, Server.GetData in all four encodings, Server.WatchDeviations) on a datastore holding 0-120 running leaves, with a scripted client: cancel at send index k, Send error from index k on (all concurrent senders fail), stalled consumer (Send blocks until cancel), slow consumer, cancel between ticks, data exhausted, or the cache instance of the datastore deleted while the stream is served; the handler must return and the census of goroutines with a data-server frame (runtime.Stack) must be back at its baseline within 10 s; a worker death with a Go panic is a violation. After every case the same server is asked for streams it has to refuse (WatchDeviations, GetData, Subscribe naming an unknown, an empty or no datastore), for a TransactionCancel (needs the datastore map for itself) and for a plain GetData on the datastore: each has to return within 10 s (what a stream left behind - a lock, a full channel - shows here). distinct = (rpc, subscriptions/encoding, store size, script); non-trivial = the terminating event happened after at least one message was sent or while several senders were active"
 }
 func (c *c19) Assumptions() []string {
 	return []string{
